@@ -10,6 +10,7 @@
 #include <unordered_map>
 #include <frequent_items_sketch.hpp>
 #include "vtrace.hpp"
+#include "refhash.hpp"
 
 using namespace datasketches;
 using vt::Ev;
@@ -33,6 +34,14 @@ template<> struct Codec<std::string> {
 };
 
 struct Row { long x; long long est, lb, ub; };
+
+// opaque image token: the bytes themselves up to 4 KB, beyond that a 128-bit digest + length (tokens are only compared for equality)
+static Ev& img_tok(Ev& e, const char* key, const void* p, size_t n) {
+  if (n <= 4096) return e.bytes(key, p, n);
+  auto h = refhash::murmur3_x64_128(p, n, 0x5eed);
+  char buf[80]; snprintf(buf, sizeof buf, "B:digest-%016llx%016llx-%zu", (unsigned long long)h.h1, (unsigned long long)h.h2, n);
+  return e.str(key, buf);
+}
 
 template<class T> struct Driver {
   using Sk = frequent_items_sketch<T>;
@@ -72,16 +81,32 @@ template<class T> struct Driver {
     }
     return s + "]";
   }
-  // difference of the rows against the previous event on this slot; updates the shadow
-  std::string delta(int i) {
+  // dense form of a set of rows: position x holds the lower bound of item x (0 = no row); used when there are many rows
+  std::vector<long long> dense(const std::map<long, long long>& m) {
+    std::vector<long long> v((size_t)U + 5, 0);
+    for (auto& kv : m) if (kv.first >= 1 && kv.first <= U + 5) v[kv.first - 1] = kv.second;
+    return v;
+  }
+  std::vector<long long> dense(const std::vector<Row>& r) { std::map<long, long long> m; for (auto& x : r) m[x.x] = x.lb; return dense(m); }
+  // rows after this event against the previous event on this slot: a short difference "d" = [[item, new lower bound or 0], ...],
+  // or (more than 64 changes) all counters in dense form "cd"; updates the shadow
+  Ev& delta(Ev& e, int i) {
     std::map<long, long long> cur;
     for (auto& r : rows(*sk[i])) cur[r.x] = r.lb;
-    std::string s = "["; bool first = true;
-    auto put = [&](long x, long long v) { if (!first) s += ","; first = false; s += "[" + std::to_string(x) + "," + std::to_string(v) + "]"; };
+    std::string s = "["; bool first = true; size_t nch = 0;
+    auto put = [&](long x, long long v) { nch++; if (!first) s += ","; first = false; s += "[" + std::to_string(x) + "," + std::to_string(v) + "]"; };
     for (auto& kv : cur) { auto it = prev[i].find(kv.first); if (it == prev[i].end() || it->second != kv.second) put(kv.first, kv.second); }
     for (auto& kv : prev[i]) if (!cur.count(kv.first)) put(kv.first, 0);
     prev[i] = cur;
-    return s + "]";
+    if (nch > 64 && !cur.count(-1)) return e.il("cd", dense(cur));
+    return e.raw("d", s + "]");
+  }
+  // rows as returned, plus their dense form when there are many
+  Ev& putrows(Ev& e, const std::vector<Row>& r) {
+    e.raw("rows", rows_json(r));
+    bool unknown = false; for (auto& x : r) unknown = unknown || x.x < 1;
+    if (r.size() > 64 && !unknown) e.il("cd", dense(r));
+    return e;
   }
   Ev& scal(Ev& e, int i) {
     e.i("off", (long long)sk[i]->get_maximum_error()).i("total", (long long)sk[i]->get_total_weight()).i("n", sk[i]->get_num_active_items());
@@ -117,7 +142,7 @@ template<class T> struct Driver {
     T q = item(x);
     Ev e(w == 0 ? "UpdateZero" : "Update");
     e.i("id", i).i("x", x).i("w", w).b("rv", rv);
-    scal(e, i).i("lbx", (long long)sk[i]->get_lower_bound(q)).raw("d", delta(i)).emit();
+    delta(scal(e, i).i("lbx", (long long)sk[i]->get_lower_bound(q)), i).emit();
     return (long long)sk[i]->get_maximum_error() != off0;
   }
   // logged integers must stay below 2^31 (and 7 * total inside the contract): a merge tree that would exceed the cap restarts the target
@@ -127,7 +152,7 @@ template<class T> struct Driver {
     if (rv) sk[dst]->merge(std::move(*sk[src])); else sk[dst]->merge(*sk[src]);
     ver[dst]++;
     Ev e("Merge"); e.i("dst", dst).i("src", src).b("rv", rv);
-    scal(e, dst).raw("d", delta(dst)).emit();
+    delta(scal(e, dst), dst).emit();
     if (rv) { sk[src].reset(); prev[src].clear(); ver[src]++; Ev("Drop").i("id", src).emit(); }
   }
   void obs(int i) {
@@ -135,7 +160,7 @@ template<class T> struct Driver {
     auto r = rows(s);
     Ev e("Obs"); e.i("id", i); scal(e, i).b("empty", s.is_empty());
     e.i("epsQ", (long long)std::llround(s.get_epsilon() * 1048576.0)).i("epsQs", (long long)std::llround(Sk::get_epsilon((uint8_t)lgmax[i]) * 1048576.0));
-    e.raw("rows", rows_json(r));
+    putrows(e, r);
     // probe set: tracked, offered-but-dropped, never offered
     std::vector<long> probe;
     if (U <= 50) for (long x = 1; x <= U; x++) probe.push_back(x);
@@ -155,7 +180,7 @@ template<class T> struct Driver {
     if (off > 0) { th.push_back(off - 1); th.push_back(off / 2); }
     if (!r.empty()) { th.push_back(r[r.size() / 2].lb); th.push_back(r[r.size() / 2].ub); th.push_back(r[r.size() / 10].lb); th.push_back(r[0].ub); th.push_back(r[0].ub - 1); th.push_back(r[0].lb - 1); }
     std::string fr = "[";
-    int nq = r.size() > 100 ? 3 : 6;
+    int nq = r.size() > 400 ? 2 : r.size() > 100 ? 3 : 6;
     for (int k = 0; k <= nq; k++) {
       bool nfn = g.chance(50); bool dflt = (k == nq);
       long long t = dflt ? off : std::max(0LL, th[g.below(th.size())]);
@@ -197,8 +222,9 @@ template<class T> struct Driver {
     blob[b].assign(bytes.begin() + hdr, bytes.end()); blive[b] = true; bsrc[b] = i; bver[b] = ver[i];
     auto c = canon(blob[b]);
     Ev e("Ser"); e.i("src", i).i("blob", b).i("hdr", hdr).i("tot", (long long)bytes.size()).i("size", (long long)blob[b].size())
-      .i("adv", (long long)sk[i]->get_serialized_size_bytes()).bytes("img", blob[b].data(), blob[b].size()).bytes("img0", bytes0.data(), bytes0.size())
-      .bytes("simg", st.data(), st.size()).bytes("cimg", c.data(), c.size());
+      .i("adv", (long long)sk[i]->get_serialized_size_bytes());
+    img_tok(e, "img", blob[b].data(), blob[b].size()); img_tok(e, "img0", bytes0.data(), bytes0.size());
+    img_tok(e, "simg", st.data(), st.size()); img_tok(e, "cimg", c.data(), c.size());
     if (restored[i]) e.b("restored", true);
     e.emit();
   }
@@ -221,16 +247,16 @@ template<class T> struct Driver {
     lgmax[j] = lg;
     auto r = rows(*sk[j]);
     prev[j].clear(); for (auto& x : r) prev[j][x.x] = x.lb;
-    Ev e("Deser"); e.i("blob", b).i("dst", j).str("path", stream ? "stream" : "bytes").i("consumed", consumed).i("lgMax", lg)
-      .bytes("recimg", c.data(), c.size());
-    scal(e, j).raw("rows", rows_json(r)).emit();
+    Ev e("Deser"); e.i("blob", b).i("dst", j).str("path", stream ? "stream" : "bytes").i("consumed", consumed).i("lgMax", lg);
+    img_tok(e, "recimg", c.data(), c.size());
+    putrows(scal(e, j), r).emit();
   }
   void copy(int i, int j) {
     bool assign = sk[j] && g.chance(50);
     if (assign) *sk[j] = *sk[i]; else sk[j].reset(new Sk(*sk[i]));
     lgmax[j] = lgmax[i]; restored[j] = restored[i]; prev[j] = prev[i]; ver[j]++;
     Ev e("Copy"); e.i("src", i).i("dst", j).str("how", assign ? "assign" : "ctor");
-    scal(e, j).raw("rows", rows_json(rows(*sk[j]))).emit();
+    putrows(scal(e, j), rows(*sk[j])).emit();
   }
 
   // big: one long segment on a map beyond the purge sample size (lg_max 11: 1537 active entries at a purge, sampled median)
@@ -276,6 +302,8 @@ template<class T> struct Driver {
         if (sk[src]) { int b = (int)g.below(NB); ser(src, b); int j = (src + 1 + (int)g.below(NS - 1)) % NS; deser(b, j); start_twin(src, j); continue; }
       }
       int upd = 100 - 14 - 2 * serde_pct;
+      // long segment on a large map: observations, copies and images are large, take one in seven
+      if (big && op >= upd && !(op >= upd + 5 && op < upd + 11) && !g.chance(15)) continue;
       if (op < upd) {
         long x = draw_item(); long w = g.chance(3) ? 0 : draw_weight(); bool rv = g.chance(30);
         if (!fits(i, w)) { if (twin_left > 0) continue; mk(i, lgdraw()); }
